@@ -175,13 +175,13 @@ def run(ctx, res):
                 "of space AND at least one disk-job callback ran; distinct = distinct (capacity, op list)")
     streams = [("corpus", c, o) for c, o in corpus()]
     rng = ctx.sub_rng("random")
-    for _ in range(ctx.n(800, 12000)):
+    for _ in range(ctx.n(600, 12000)):
         streams.append(("random",) + S.gen_history(rng))
     rng = ctx.sub_rng("pressure")
-    for _ in range(ctx.n(1000, 16000)):
+    for _ in range(ctx.n(800, 16000)):
         streams.append(("pressure",) + S.pressure_history(rng))
     rng = ctx.sub_rng("malformed")
-    for _ in range(ctx.n(250, 4000)):
+    for _ in range(ctx.n(200, 4000)):
         streams.append(("malformed",) + S.gen_history(rng, malformed=True))
     for c, o in small_scope(ctx.n(3, 4)):
         streams.append(("small-scope", c, o))
